@@ -31,7 +31,8 @@ StepPlusMonths(e) ==
   ELSE \* table calendars: constant months per year; day clamp against the length the calendar reports
        LET M == IF e.cal = "Badi" THEN 19 ELSE 12
            ym == RegPlusMonths(M, e.y, e.m, e.k)
-       IN  IF ym[1] < e.min_year \/ ym[1] > e.max_year THEN Check(Has(e, "exc"), "plus_months_out_of_range_must_raise")
+       IN  IF e.cal = "Badi" /\ e.m = 18 /\ e.d > 19 THEN RefCheck(Has(e, "res") => (e.res[1] = ym[1] /\ e.res[2] = ym[2]), "badi_intercalary_days_month_arithmetic")
+           ELSE IF ym[1] < e.min_year \/ ym[1] > e.max_year THEN Check(Has(e, "exc"), "plus_months_out_of_range_must_raise")
            ELSE /\ Check(~Has(e, "exc"), "plus_months_in_range_must_not_raise")
                 \* (Badi: the intercalary days are days 20.. of month 18 but lie between months 18 and 19; where a date
                 \*  inside them lands is the calendar's own choice - a reference clause)
@@ -52,19 +53,22 @@ StepPlusYears(e) ==
           ELSE (Has(e, "res") /\ e.cal # "Badi" => Check(e.res[2] = e.m /\ e.res[3] = Min(e.d, e.res_dim), "plus_years_keeps_month_and_adjusts_day_by_documented_rule"))
 
 \* Period.between laws.  Points are T3 (dates: <<day, 0, 0>>; times: <<0, s, n>>; year-months: <<month ordinal, 0, 0>>).
+\* Badi dates inside the intercalary days (month 18, day 20+): the calendar's month arithmetic for them is its own
+\* (undocumented) choice, so the between-laws are reference clauses when an operand lies there
+LCheck(e, cond, clause) == IF Has(e, "badi_intercalary") /\ e.badi_intercalary THEN RefCheck(cond, clause) ELSE Check(cond, clause)
 StepBetween(e) ==
   LET fwd == Le3(e.start, e.end)
       lo == IF fwd THEN e.start ELSE e.end
       hi == IF fwd THEN e.end ELSE e.start
       sgn == IF e.start = e.end THEN 0 ELSE IF fwd THEN 1 ELSE -1
   IN
-  /\ Check(~Has(e, "exc"), "between_must_not_raise")
-  /\ (Has(e, "sp") => Check(Le3(lo, e.sp) /\ Le3(e.sp, hi), "start_plus_period_lies_between_start_and_end"))
-  /\ (Has(e, "sp") /\ e.has_finest => Check(e.sp = e.end, "start_plus_period_equals_end_when_finest_unit_requested"))
-  /\ (Has(e, "signs") => Check(\A i \in 1..Len(e.signs) : e.signs[i] = 0 \/ e.signs[i] = sgn, "all_components_have_one_sign"))
-  /\ (Has(e, "signs") => Check(\A i \in 1..Len(e.signs) : e.signs[i] # 0 => e.requested[i], "only_requested_units_are_used"))
+  /\ LCheck(e, ~Has(e, "exc"), "between_must_not_raise")
+  /\ (Has(e, "sp") => LCheck(e, Le3(lo, e.sp) /\ Le3(e.sp, hi), "start_plus_period_lies_between_start_and_end"))
+  /\ (Has(e, "sp") /\ e.has_finest => LCheck(e, e.sp = e.end, "start_plus_period_equals_end_when_finest_unit_requested"))
+  /\ (Has(e, "signs") => LCheck(e, \A i \in 1..Len(e.signs) : e.signs[i] = 0 \/ e.signs[i] = sgn, "all_components_have_one_sign"))
+  /\ (Has(e, "signs") => LCheck(e, \A i \in 1..Len(e.signs) : e.signs[i] # 0 => e.requested[i], "only_requested_units_are_used"))
   \* single unit: one more unit in the direction of travel would pass the end (or leave the range)
-  /\ (Has(e, "over") => Check(e.over_raised \/ (IF fwd THEN Lt3(e.end, e.over) ELSE Lt3(e.over, e.end)) \/ sgn = 0, "single_unit_amount_is_maximal"))
+  /\ (Has(e, "over") => LCheck(e, e.over_raised \/ (IF fwd THEN Lt3(e.end, e.over) ELSE Lt3(e.over, e.end)) \/ sgn = 0, "single_unit_amount_is_maximal"))
 
 \* fixed-length total of a period, in nanoseconds
 TotalNs(c) ==
